@@ -364,3 +364,78 @@ func c13TypedTrailers(yield func(*c13Case)) {
 		}
 	}
 }
+
+// ---------------------------------------------------------------- duplicate keys at every nesting level
+
+// c13DupKeyDocs enumerates JSON documents completely up to a nesting bound:
+//   level 2: every value of depth <= 2 over scalars {1,"a",null}, keys {a,b},
+//            objects of <= 2 members, arrays of <= 2 elements;
+//   deeper:  every value of depth <= 2 over the scalar {1} (same shapes), put
+//            into each of seven wrappers that add one or two levels of array /
+//            object nesting (so a duplicate sits below arrays, objects and mixes).
+// The oracle (does any object of the document repeat a key?) is computed on the
+// generator's own tree, not by parsing.
+type c13Doc struct {
+	Text string
+	Dup  bool
+}
+
+func c13DocLevel(prev []c13Doc, scalars []string) []c13Doc {
+	var out []c13Doc
+	for _, s := range scalars {
+		out = append(out, c13Doc{s, false})
+	}
+	keys := []string{"a", "b"}
+	out = append(out, c13Doc{"{}", false}, c13Doc{"[]", false})
+	for _, k := range keys {
+		for _, v := range prev {
+			out = append(out, c13Doc{`{"` + k + `":` + v.Text + `}`, v.Dup})
+		}
+	}
+	for _, k1 := range keys {
+		for _, v1 := range prev {
+			for _, k2 := range keys {
+				for _, v2 := range prev {
+					out = append(out, c13Doc{`{"` + k1 + `":` + v1.Text + `,"` + k2 + `":` + v2.Text + `}`, v1.Dup || v2.Dup || k1 == k2})
+				}
+			}
+		}
+	}
+	for _, v := range prev {
+		out = append(out, c13Doc{"[" + v.Text + "]", v.Dup})
+	}
+	for _, v1 := range prev {
+		for _, v2 := range prev {
+			out = append(out, c13Doc{"[" + v1.Text + "," + v2.Text + "]", v1.Dup || v2.Dup})
+		}
+	}
+	return out
+}
+
+func c13DupKeyDocs(thorough bool, yield func(*c13Case)) {
+	emit := func(d c13Doc, where string) {
+		c := &c13Case{Phase: "dupkeys", Format: "json-dup-keys", Class: "dup-key-nested", Expect: "silent", Input: []byte(d.Text), Origin: where}
+		if d.Dup {
+			c.Expect = "feedback"
+		}
+		yield(c)
+	}
+	full := []string{"1", `"a"`, "null"}
+	l0 := []c13Doc{{"1", false}, {`"a"`, false}, {"null", false}, {"{}", false}, {"[]", false}}
+	l1 := c13DocLevel(l0, full)
+	for _, d := range c13DocLevel(l1, full) {
+		emit(d, "depth<=2, full alphabet")
+	}
+	one := []string{"1"}
+	w0 := []c13Doc{{"1", false}, {"{}", false}, {"[]", false}}
+	w2 := c13DocLevel(c13DocLevel(w0, one), one)
+	wrappers := []struct{ pre, post string }{{"[", "]"}, {`{"a":`, "}"}, {"[1,", "]"}, {`{"a":1,"b":`, "}"}, {"[[", "]]"}, {`{"a":[`, "]}"}, {`[{"a":`, "}]"}}
+	if thorough {
+		wrappers = append(wrappers, struct{ pre, post string }{`{"a":{"b":`, "}}"}, struct{ pre, post string }{`[[[`, "]]]"}, struct{ pre, post string }{`[1,[{"b":[`, `]}],1]`})
+	}
+	for _, w := range wrappers {
+		for _, d := range w2 {
+			emit(c13Doc{w.pre + d.Text + w.post, d.Dup}, "depth<=2 inside "+w.pre+"…"+w.post)
+		}
+	}
+}
